@@ -370,6 +370,25 @@ fn c20_dm_from_iter_perm() {
     from_iter_perm::<3>();
 }
 
+/// Four entries (thorough): every key order of 0..4 builds the same map.
+#[kani::proof]
+#[kani::unwind(7)]
+fn c20_t_dm_from_iter_perm4() {
+    let k: [usize; 4] = [kani::any(), kani::any(), kani::any(), kani::any()];
+    let v: [u8; 4] = [kani::any(), kani::any(), kani::any(), kani::any()];
+    kani::assume(k[0] < 4 && k[1] < 4 && k[2] < 4 && k[3] < 4);
+    kani::assume(k[0] != k[1] && k[0] != k[2] && k[0] != k[3] && k[1] != k[2] && k[1] != k[3] && k[2] != k[3]);
+    let pairs = vec![(Id::from(k[0]), v[0]), (Id::from(k[1]), v[1]), (Id::from(k[2]), v[2]), (Id::from(k[3]), v[3])];
+    let m: DenseNatMap<Id, u8> = pairs.into_iter().collect();
+    assert!(m.len() == 4, "C20 from_iter length (4 entries)");
+    let mut i = 0;
+    while i < 4 {
+        assert!(m.get(Id::from(k[i])) == Some(&v[i]), "C20 from_iter maps k_i to v_i whatever the key order (4 entries)");
+        i += 1;
+    }
+    kani::cover!(k[0] == 1 && k[1] == 2 && k[2] == 3 && k[3] == 0, "4-cycle key order");
+}
+
 /// Keys that are not a permutation of `0..N` (gap or duplicate) are rejected: the constructor
 /// never returns.  Decided by the cover `EXPECT-UNSAT ...` being unsatisfiable; the panic itself
 /// shows up as the (expected) failed check "Invalid key at index".
